@@ -1,4 +1,4 @@
-import QuillModel.Backend.ConsProofsDropCall
+import QuillModel.Backend.ConsProofsReclaim
 import QuillModel.Props.C03
 /-!
 # C08 — dropping queue: a statement is delivered intact or reported dropped; the counts add up
@@ -12,14 +12,16 @@ sequence (also sizes that can never fit), every configuration, every initial sta
 (`Started`: no context yet, nothing reported). Delivered statements keep C03 (conservation, order, at most once per
 sink): those theorems do not depend on the queue type.
 
-**What is false of the current code** (and therefore proved here only in the weaker form / refuted by witnesses):
-"a reclaimed context has no unreported drops". `_cleanup_invalidated_thread_contexts` never looks at the failure
-counter; F17 (the Flush path did not even check the counters first) is repaired and carried as the flag
-`reportBeforeFlushCleanup`, but a drop that happens between `_check_failure_counter` and the clean-up of the same
-poll — while the notifier runs for another thread (hook site 8), or by a thread that registers after the poll's
-cache refresh — is still lost when that thread has exited (`C08_count_lost_between_check_and_cleanup`, confirmed on
-the real code: `findings/F23_pinned_tree.txt`). The accounting identity below holds regardless and pins the loss
-down exactly: it is `Σ fail` over the removed contexts.
+**The repair the property needs.** "A reclaimed context has no unreported drops" was false of the code as found:
+`_cleanup_invalidated_thread_contexts` never looked at the failure counter. F17 (the Flush path did not even check the
+counters before cleaning up) was repaired first (`reportBeforeFlushCleanup`), but a drop made between
+`_check_failure_counter` and the clean-up of the same poll — while the notifier runs for another thread (hook site 8),
+or by a thread that registers after the poll's cache refresh — was still lost when that thread had exited (finding F24,
+confirmed on the real code, `findings/F23_pinned_tree.txt`). Repair: the clean-up keeps a context whose counter is
+non-zero (`Cfg.cleanupKeepsUnreported`, extracted from the header). With it `removed → fail = 0` is an invariant of
+every schedule (`C08_removed_context_reported`), whatever the value of the older flag; without it both schedules lose
+a count (`C08_flush_cleanup_loses_count_unrepaired`, `C08_count_lost_between_check_and_cleanup`). The accounting
+identity holds in all cases and pins the loss down exactly: it is `Σ fail` over the removed contexts.
 -/
 namespace Backend
 open Backend.PA
@@ -40,7 +42,7 @@ theorem C08_cfg_constant (s0 : BSt) (ops : List Op) : (runOps s0 ops).cfg = s0.c
     { frame := fun _ _ h f => f.cfg.trans h
       refresh := fun s h => by unfold refreshCache; split <;> exact h
       ctxEmpty := fun _ _ h => h
-      dropCtx := fun _ _ h _ _ => h
+      dropCtx := fun _ _ h _ _ _ => h
       prepRead := fun _ _ h => h
       commitRead := fun _ _ h => h
       readOne := fun s i st rest h _ _ => by unfold PA.readOne; dsimp only; split <;> exact h
@@ -124,19 +126,42 @@ theorem C08_control_kinds :
     isLogKind (.flush 0) = false ∧ isLogKind (.initBt 0 0) = false ∧ isLogKind .flushBt = false ∧
     isLogKind (.removal 0) = false := ⟨rfl, rfl, rfl, rfl⟩
 
-/- Full statement wanted (FALSE of the current code, see the header and the two witnesses below):
-     `cfg.reportBeforeFlushCleanup = true → ∀ ops i, ((runOps s0 ops).th i).removed = true → ((runOps s0 ops).th i).fail = 0`.
-   Proved instead: the step-level fact that the clean-up, when it follows the counter check with no frontend step in
-   between (no injection while the notifier runs, same cache), removes only contexts whose counter is zero.
-   Missing for the full statement: the repair "report (or require zero) the failure counter when a context is
-   reclaimed" in `_cleanup_invalidated_thread_contexts`. -/
-/-- **Clean-up directly after the counter check loses nothing** (`_partial`: one poll step, no frontend step between
-    `_check_failure_counter` and `_cleanup_invalidated_thread_contexts`): every context removed by the clean-up has
-    `fail = 0`, i.e. all its drops were reported. -/
-theorem C08_removed_context_reported_partial (s : BSt) (j : Nat)
+/-- **A reclaimed context has no unreported drops** (repaired clean-up, `cfg.cleanupKeepsUnreported = true`): in every
+    reachable state of every schedule — whatever is injected while the notifier runs, whenever threads register, drop
+    and exit — a context that has left the registry has a zero failure counter: every call it refused was reported.
+    With `C08_dropped_equals_reported_plus_pending`: the drops not yet reported are exactly the counters of the
+    contexts still registered, which the next idle pass reports. -/
+theorem C08_removed_context_reported (s0 : BSt) (h0 : InvK s0) (ops : List Op) (i : Nat)
+    (hr : ((runOps s0 ops).th i).removed = true) : ((runOps s0 ops).th i).fail = 0 :=
+  (runOps_closed InvK.closed ops s0 h0).r.zero i hr
+
+/-- every freshly started system whose configuration carries the repair satisfies the hypothesis -/
+theorem C08_fresh_reclaim_inv (s0 : BSt) (h : Fresh s0) (hk : s0.cfg.cleanupKeepsUnreported = true) : InvK s0 :=
+  ⟨hk, h.inv.a, ⟨fun i hr => by
+    rw [th_default_of_ge s0 i (by rw [h.ths]; exact Nat.zero_le _)] at hr; cases hr⟩⟩
+
+/-- clean-up directly after the counter check (no frontend step in between) removes only contexts whose counter is
+    zero — the situation of an idle poll without interference, true of the unrepaired clean-up as well -/
+theorem C08_cleanup_after_check (s : BSt) (j : Nat)
     (hr : ((cleanupContexts (checkFailures (fun x _ => x) s)).th j).removed = true) :
     (s.th j).removed = true ∨ ((cleanupContexts (checkFailures (fun x _ => x) s)).th j).fail = 0 :=
   cleanup_after_check s j hr
+
+/- Full statement wanted: "at quiescence, after an idle poll, `fail = 0` for every registered context, hence
+   `Σ discarded = reported`". Proved: the idle branch of `_poll` (everything after the read pass found nothing), run
+   with an injection runner that takes no frontend step (e.g. `runInj []`), from a state whose cache covers the
+   registry, ends with `fail = 0` for every context still registered; `poll inj s` IS that branch when the read pass
+   counted no event (`poll_idle`). Missing: that the read pass itself (`populate`, which refreshes the cache) leaves the
+   cache covering the registry when no thread registers during it — an invariant about `newFlag` not proved here. -/
+/-- **The idle pass drains the failure counters** (`_partial`, see the comment above). -/
+theorem C08_idle_pass_drains_counters_partial (inj : BSt → Nat → BSt) (hq : QuietInj inj) (s : BSt)
+    (hidle : (populate inj s).2 = 0) (hc : ∀ i ∈ (populate inj s).1.registry, i ∈ (populate inj s).1.cache)
+    (i : Nat) (hi : i ∈ (poll inj s).registry) : ((poll inj s).th i).fail = 0 := by
+  rw [poll_idle inj s hidle] at hi ⊢
+  exact idleTail_clears hq _ hc i hi
+
+/-- the empty injection table takes no frontend step -/
+theorem C08_empty_table_quiet : QuietInj (runInj []) := runInj_nil_quiet
 
 /-- without interference `_check_failure_counter` empties the counter of every cached context -/
 theorem C08_check_clears_counters (s : BSt) (i : Nat) (hi : i ∈ s.cache) :
@@ -146,15 +171,16 @@ theorem C08_check_clears_counters (s : BSt) (i : Nat) (hi : i ∈ s.cache) :
 
 /-! ### witnesses: the two ways a drop count is lost with a reclaimed context -/
 
-def c08Cfg (rep : Bool) : Cfg :=
+def c08Cfg (rep keep : Bool) : Cfg :=
   { dropping := true, qcap := 512, grace := 0, soft := 4, hard := 8, hdr := 32, strOverhead := 5, batchPct := 5,
     qp := { wStore := .release, wLoad := .acquire, rStore := .release, rLoad := .acquire, drainPublish := true },
-    invalidBits := 32, refreshAfterSample := true, catchAllFormat := true, reportBeforeFlushCleanup := rep }
+    invalidBits := 32, refreshAfterSample := true, catchAllFormat := true, reportBeforeFlushCleanup := rep,
+    cleanupKeepsUnreported := keep }
 
-def c08Init (rep : Bool) : BSt :=
-  { cfg := c08Cfg rep, now := 1000, sinks := [{ sid := 0 }], lgs := [{ gid := 0, sinks := [0] }], names := [(0, 0)] }
+def c08Init (rep keep : Bool) : BSt :=
+  { cfg := c08Cfg rep keep, now := 1000, sinks := [{ sid := 0 }], lgs := [{ gid := 0, sinks := [0] }], names := [(0, 0)] }
 
-theorem c08Init_started (rep : Bool) : Started (c08Init rep) := ⟨rfl, rfl⟩
+theorem c08Init_started (rep keep : Bool) : Started (c08Init rep keep) := ⟨rfl, rfl⟩
 
 /-- F17's schedule: thread 1 logs (accepted), logs again (dropped: the queue is full), exits; thread 2's `flush_log`
     is processed before any idle poll -/
@@ -162,18 +188,22 @@ def f17Sched : List Op :=
   [.front (.tstart 1), .front (.tstart 2), .front (.log 1 0 4 300 true), .front (.log 1 0 4 300 true),
    .front (.texit 1), .front (.flush 2 0), .poll [], .poll []]
 
-/-- **F17 (unrepaired flag value)**: with `reportBeforeFlushCleanup = false` the Flush path reclaims thread 1's
-    context while its failure counter still holds the drop: one statement discarded, nothing reported, and the
-    counter is gone with the context. -/
+/-- **F17 (both repairs off)**: the Flush path reclaims thread 1's context while its failure counter still holds the
+    drop: one statement discarded, nothing reported, and the counter is gone with the context. -/
 theorem C08_flush_cleanup_loses_count_unrepaired :
-    ((runOps (c08Init false) f17Sched).th 0).removed = true ∧ ((runOps (c08Init false) f17Sched).th 0).fail = 1 ∧
-    ((runOps (c08Init false) f17Sched).th 0).discarded = 1 ∧ (runOps (c08Init false) f17Sched).reported = 0 := by
+    ((runOps (c08Init false false) f17Sched).th 0).removed = true ∧ ((runOps (c08Init false false) f17Sched).th 0).fail = 1 ∧
+    ((runOps (c08Init false false) f17Sched).th 0).discarded = 1 ∧ (runOps (c08Init false false) f17Sched).reported = 0 := by
   decide
 
-/-- the same schedule on the repaired order: the drop is reported before the context is reclaimed -/
+/-- the same schedule with the first repair (report before the Flush path cleans up): reported, then reclaimed -/
 theorem C08_flush_cleanup_reports_repaired :
-    ((runOps (c08Init true) f17Sched).th 0).removed = true ∧ ((runOps (c08Init true) f17Sched).th 0).fail = 0 ∧
-    ((runOps (c08Init true) f17Sched).th 0).discarded = 1 ∧ (runOps (c08Init true) f17Sched).reported = 1 := by
+    ((runOps (c08Init true false) f17Sched).th 0).removed = true ∧ ((runOps (c08Init true false) f17Sched).th 0).fail = 0 ∧
+    ((runOps (c08Init true false) f17Sched).th 0).discarded = 1 ∧ (runOps (c08Init true false) f17Sched).reported = 1 := by
+  decide
+
+/-- the same schedule with only the second repair: the context is kept until its counter has been reported -/
+theorem C08_flush_cleanup_keeps_unreported :
+    ((runOps (c08Init false true) f17Sched).th 0).removed = false ∧ ((runOps (c08Init false true) f17Sched).th 0).fail = 1 := by
   decide
 
 /-- thread 1's context is first in the cache; thread 2 drops a statement; in the idle poll, while the notifier
@@ -182,20 +212,27 @@ def f23Sched : List Op :=
   [.front (.tstart 1), .front (.tstart 2), .front (.log 1 0 4 10 true), .front (.log 2 0 4 300 true),
    .front (.log 2 0 4 300 true), .poll [], .poll [], .poll [(8, 1, [.log 1 0 4 5000 true, .texit 1])]]
 
-/-- **Finding (repaired flag value, current code)**: even with `reportBeforeFlushCleanup = true` a drop made between
-    the counter check and the clean-up of the same idle poll is lost with the exited thread's context: two statements
-    discarded, one reported, the other count is in a removed context. So `removed → fail = 0` is not an invariant
-    of the current code. Confirmed on the real code (`findings/F23_pinned_tree.txt`). -/
+/-- **F24 (first repair on, second off)**: even with `reportBeforeFlushCleanup = true` a drop made between the counter
+    check and the clean-up of the same idle poll is lost with the exited thread's context: two statements discarded, one
+    reported, the other count is in a removed context. So `removed → fail = 0` needs `cleanupKeepsUnreported`. -/
 theorem C08_count_lost_between_check_and_cleanup :
-    ((runOps (c08Init true) f23Sched).th 0).removed = true ∧ ((runOps (c08Init true) f23Sched).th 0).fail = 1 ∧
-    ((ctrs (runOps (c08Init true) f23Sched)).map (fun c => c.2.1)).sum = 2 ∧
-    (runOps (c08Init true) f23Sched).reported = 1 := by
+    ((runOps (c08Init true false) f23Sched).th 0).removed = true ∧ ((runOps (c08Init true false) f23Sched).th 0).fail = 1 ∧
+    ((ctrs (runOps (c08Init true false) f23Sched)).map (fun c => c.2.1)).sum = 2 ∧
+    (runOps (c08Init true false) f23Sched).reported = 1 := by
+  decide
+
+/-- with the repair the context stays registered until the next idle pass has reported its counter, then it goes -/
+theorem C08_count_kept_until_reported :
+    ((runOps (c08Init true true) f23Sched).th 0).removed = false ∧ ((runOps (c08Init true true) f23Sched).th 0).fail = 1 ∧
+    ((runOps (c08Init true true) (f23Sched ++ [.poll []])).th 0).removed = true ∧
+    ((runOps (c08Init true true) (f23Sched ++ [.poll []])).th 0).fail = 0 ∧
+    (runOps (c08Init true true) (f23Sched ++ [.poll []])).reported = 2 := by
   decide
 
 /-- non-vacuity of the outcome theorem: on this schedule one call is granted (`ret=1`), the next refused (`ret=0`) -/
 example :
-    (applyOp (runOps (c08Init true) (f17Sched.take 2)) (.front (.log 1 0 4 300 true))).2 = "id=0 ret=1 ev=1 bytes=338" ∧
-    (applyOp (runOps (c08Init true) (f17Sched.take 3)) (.front (.log 1 0 4 300 true))).2 = "id=1 ret=0 ev=1 bytes=0" := by
+    (applyOp (runOps (c08Init true true) (f17Sched.take 2)) (.front (.log 1 0 4 300 true))).2 = "id=0 ret=1 ev=1 bytes=338" ∧
+    (applyOp (runOps (c08Init true true) (f17Sched.take 3)) (.front (.log 1 0 4 300 true))).2 = "id=1 ret=0 ev=1 bytes=0" := by
   decide
 
 end Backend
